@@ -73,6 +73,13 @@ THEOREMS = [
     "Verif.C13.cubic_jac_eq_implicit_cardano",
     "Verif.C13.twlc_distance_hasDerivAt",
     "Verif.C13.efjc_distance_hasDerivAt",
+    # deepening round D
+    "Verif.C13.trig_chain_eq_implicit",
+    "Verif.C13.trig_band_free",
+    "Verif.C13.trig_root_is_simple_root",
+    "Verif.C13.cardano_chain_eq_implicit",
+    "Verif.C13.det_ne_zero_necessary",
+    "Verif.C13.cubic_jac_eq_implicit",
 ]
 for _ns, _vars in (("OF", "Lp Lc St kT d"), ("WD", "Lp Lc kT f"), ("EF", "Lp Lc St kT d"), ("ED", "Lp Lc St kT f")):
     THEOREMS += [f"Verif.C13.{_ns}.row_{v}" for v in _vars.split()]
